@@ -17,5 +17,6 @@ CONSTANTS
   MaxPending = 2
   BUG_F5 = FALSE
   BUG_F6 = FALSE
+  OPS = {"fs", "refresh", "api", "inject"}
   EMIT = TRUE
 INVARIANTS TypeOK PrecedenceOK IsolationOK EmitRow
